@@ -200,12 +200,25 @@ def gen_ops(rng, ws):
     cur = copy.deepcopy(ws)
     n = rng.randint(1, 4)
     for _ in range(n):
-        kind = rng.choice(["add", "remove", "replace", "move", "copy", "test"])
+        kind = rng.choice(["add", "remove", "replace", "move", "copy", "test", "replace_container"])
         ci = rng.randrange(len(cur["channels"]))
         ch = cur["channels"][ci]
         si = rng.randrange(len(ch["samples"]))
         smp = ch["samples"][si]
         nb = len(smp["data"])
+        if kind == "replace_container":
+            # a whole sample replaced by an edited copy, then a later operation reaching INTO what was just put in
+            newsmp = copy.deepcopy(smp)
+            newsmp["data"] = [round(v * 1.1 + 0.25, 3) for v in newsmp["data"]]
+            pair = [{"op": "replace", "path": f"/channels/{ci}/samples/{si}", "value": newsmp},
+                    {"op": "replace", "path": f"/channels/{ci}/samples/{si}/data/{rng.randrange(nb)}", "value": round(rng.uniform(1, 99), 3)}]
+            try:
+                cur = ref_apply(cur, copy.deepcopy(pair))
+            except RefPatchError:
+                continue
+            ops.extend(pair)
+            kinds.extend(["replace_container", "replace"])
+            continue
         if kind == "add":
             newname = f"new_sig_{rng.randrange(1000)}"
             if any(s["name"] == newname for s in ch["samples"]):
